@@ -139,7 +139,7 @@ Fixpoint hip_run (k : float) (kxps : list float) (hip : float) : float :=
 (* ================= Theta: common/binomial_bounds.rs + theta/sketch.rs ================= *)
 Definition HALF : float := fnth GenBoundsTheta.FLIT_cont_classic_lb 0.
 Definition FOUR : float := fnth GenBoundsTheta.FLIT_cont_classic_lb 3.
-Definition BB_360 : float := fnth GenBoundsTheta.FLIT_compute_approx_binomial_lower_bound 6.
+Definition BB_360 : float := fnth GenBoundsTheta.FLIT_compute_approx_binomial_lower_bound 5.
 Definition BB_GAUSS_MIN : N := zN (nth 2 GenBoundsTheta.LIT_compute_approx_binomial_lower_bound 0%Z).  (* 120 *)
 (* 1.0 - 1e-5 : the literal 1e-5 has no decimal point and is not picked up by the translator; written here *)
 Definition BB_NEAR_ONE : float := fb 4607182328728024861.
